@@ -39,6 +39,9 @@ def known(prop):
     return out
 
 
+BENIGN_EXTRA = ""
+
+
 def benign_prompt(wt, rd, pid, p):
     """A change that must NOT break the property: used to look for false alarms of the checks."""
     return "\n".join([
@@ -64,7 +67,7 @@ def benign_prompt(wt, rd, pid, p):
         "re-read the statement clause by clause and argue for each clause why it is unaffected. Keep every exported identifier and "
         "every unexported identifier used across packages (internal/route and inject are used by the root package) compiling with "
         "its current signature. The existing test suite must still pass (apart from the five known failures), and the code must "
-        "compile.\n" % wt,
+        "compile.\n" % wt + (("\n" + BENIGN_EXTRA + "\n") if BENIGN_EXTRA else ""),
         "When done, leave the change uncommitted in the worktree, save it with `git -C %s diff > %s/my_%s.patch`, and reply with: (a) "
         "the diff, (b) for each clause of the property one sentence on why it still holds, (c) which observable behaviour outside the "
         "property changed (if any)." % (wt, rd, pid),
@@ -83,6 +86,10 @@ def main():
         elif args[0] == "--benign":
             args.pop(0)
             benign = True
+        elif args[0] == "--benign-extra":
+            args.pop(0)
+            global BENIGN_EXTRA
+            BENIGN_EXTRA = open(args.pop(0)).read().strip()
     props = {}
     for ln in open(os.path.join(VERIF, "properties.jsonl")):
         p = json.loads(ln)
